@@ -75,7 +75,8 @@ def specValue (start : Bytes) (v : Visit Attr) (c : Char) : Bytes × Bool :=
   else if c == 'f' then
     (match v.ent.rpath with
      | n :: _ => (n, false)
-     | [] => (if t.isEmpty then [47] else base, base == [46] || base == [46, 46] || t.isEmpty))
+     -- (a last component `..` is a component like any other; `.` may be normalised away: either way)
+     | [] => (if t.isEmpty then [47] else base, base == [46] || t.isEmpty))
   else if c == 'h' then
     (match v.ent.rpath with
      | _ :: up => (stripSlashes (pathOf start up), (stripSlashes (pathOf start up)).isEmpty)
